@@ -50,10 +50,9 @@ thread_local! {
 fn radials_for(word: &[u8]) -> Vec<Radial> {
     STATUS_PATTERN.with(|p| {
         let p = p.borrow();
-        word.iter()
-            .enumerate()
-            .map(|(i, e)| radial_s(1000 + i as i64, (i % 720) as u16 + 1, *e, if p.is_empty() { 0 } else { p[i % p.len()] }))
-            .collect()
+        let mut v = Vec::with_capacity(word.len() + if p.len() % 2 == 1 { 17 } else { 0 });
+        v.extend(word.iter().enumerate().map(|(i, e)| radial_s(1000 + i as i64, (i % 720) as u16 + 1, *e, if p.is_empty() { 0 } else { p[i % p.len()] })));
+        v
     })
 }
 
@@ -256,12 +255,17 @@ struct MergeCase {
     b: Vec<u16>,
     ea: u8,
     eb: u8,
+    /// spare capacity of the two radial vectors: (0,0) exact, else extra elements reserved
+    /// (allocation capacity is not part of a sweep's value and must not influence the result)
+    spare: (usize, usize),
 }
 
 fn check_merge(ctx: &Ctx, c: &MergeCase) -> &'static str {
-    let wit = || json!({"op": "merge", "a": c.a, "b": c.b, "ea": c.ea, "eb": c.eb});
-    let ra: Vec<Radial> = c.a.iter().enumerate().map(|(i, az)| radial(100 + i as i64, *az, c.ea)).collect();
-    let rb: Vec<Radial> = c.b.iter().enumerate().map(|(i, az)| radial(200 + i as i64, *az, c.eb)).collect();
+    let wit = || json!({"op": "merge", "a": c.a, "b": c.b, "ea": c.ea, "eb": c.eb, "spare": [c.spare.0, c.spare.1]});
+    let mut ra: Vec<Radial> = Vec::with_capacity(c.a.len() + c.spare.0);
+    ra.extend(c.a.iter().enumerate().map(|(i, az)| radial(100 + i as i64, *az, c.ea)));
+    let mut rb: Vec<Radial> = Vec::with_capacity(c.b.len() + c.spare.1);
+    rb.extend(c.b.iter().enumerate().map(|(i, az)| radial(200 + i as i64, *az, c.eb)));
     let mut all: Vec<(u16, i64)> = ra
         .iter()
         .chain(rb.iter())
@@ -413,9 +417,15 @@ pub fn run(ctx: &'static Ctx) -> (&'static str, Value, Vec<&'static str>) {
             let same = idx % 2 == 0;
             let a = &ws[(idx / 2) % n];
             let b = &ws[(idx / 2) / n];
-            let c = MergeCase { a: a.clone(), b: b.clone(), ea: 4, eb: if same { 4 } else { 5 } };
-            let o = check_merge(ctx, &c);
-            st.eval();
+            let mut o = "ok";
+            for spare in [(0usize, 0usize), (0, a.len() + 2), (b.len() + 2, 0), (64, 64)] {
+                let c = MergeCase { a: a.clone(), b: b.clone(), ea: 4, eb: if same { 4 } else { 5 }, spare };
+                let r = check_merge(ctx, &c);
+                if r != "ok" || spare == (0, 0) {
+                    o = r;
+                }
+                st.eval();
+            }
             st.outcome(&format!("merge_{o}"));
             st.count("merge_cases", 1);
             if a.len() + b.len() >= 2 {
@@ -434,7 +444,7 @@ pub fn run(ctx: &'static Ctx) -> (&'static str, Value, Vec<&'static str>) {
         ((1..=360).rev().collect::<Vec<u16>>(), (1..=360).collect::<Vec<u16>>()),
     ] {
         for same in [true, false] {
-            let c = MergeCase { a: a.clone(), b: b.clone(), ea: 9, eb: if same { 9 } else { 0 } };
+            let c = MergeCase { a: a.clone(), b: b.clone(), ea: 9, eb: if same { 9 } else { 0 }, spare: (3, b.len() + a.len()) };
             let o = check_merge(ctx, &c);
             stats.eval();
             stats.outcome(&format!("merge_{o}"));
@@ -455,10 +465,10 @@ pub fn run(ctx: &'static Ctx) -> (&'static str, Value, Vec<&'static str>) {
         |i| format!("word#{i}(len {})", halpha[i].len()),
     );
     let mcases: Vec<MergeCase> = vec![
-        MergeCase { a: vec![3, 1, 2], b: vec![2, 2], ea: 1, eb: 1 },
-        MergeCase { a: (1..=40).rev().collect(), b: (1..=40).collect(), ea: 2, eb: 2 },
-        MergeCase { a: vec![1], b: vec![1], ea: 1, eb: 2 },
-        MergeCase { a: vec![], b: vec![7, 7, 7], ea: 0, eb: 0 },
+        MergeCase { a: vec![3, 1, 2], b: vec![2, 2], ea: 1, eb: 1, spare: (0, 8) },
+        MergeCase { a: (1..=40).rev().collect(), b: (1..=40).collect(), ea: 2, eb: 2, spare: (50, 0) },
+        MergeCase { a: vec![1], b: vec![1], ea: 1, eb: 2, spare: (0, 0) },
+        MergeCase { a: vec![], b: vec![7, 7, 7], ea: 0, eb: 0, spare: (4, 4) },
     ];
     let sm = history_check(
         ctx,
@@ -475,7 +485,7 @@ pub fn run(ctx: &'static Ctx) -> (&'static str, Value, Vec<&'static str>) {
     stats = stats.merge(sh).merge(sm);
 
     let mut cov = stats.coverage(
-        "stateright BFS+DFS over elevation words (every word over each alphabet up to the depth); invariant runs the real Sweep::from_radials in every state and compares with a reference grouping, plus split-differential from non-initial states; every word of length <= 6 and every long input is also checked under 7 radial-status patterns that vary independently of the elevation number; merge: full product of azimuth-word pairs x {same,different} elevation. non-trivial = word with >=2 runs, or merge with >=2 radials; distinct by hash of the word/pair",
+        "stateright BFS+DFS over elevation words (every word over each alphabet up to the depth); invariant runs the real Sweep::from_radials in every state and compares with a reference grouping, plus split-differential from non-initial states; every word of length <= 6 and every long input is also checked under 7 radial-status patterns that vary independently of the elevation number; merge: full product of azimuth-word pairs x {same,different} elevation x four spare-capacity configurations of the two vectors. non-trivial = word with >=2 runs, or merge with >=2 radials; distinct by hash of the word/pair",
         true,
         json!({"models": model_reports, "merge_word_len": maxlen, "merge_alphabet": [1,2,3]}),
     );
@@ -502,7 +512,7 @@ pub fn replay(ctx: &'static Ctx, case: &Value) {
         }
         Some("merge") => {
             let g = |k: &str| -> Vec<u16> { case[k].as_array().map(|a| a.iter().map(|x| x.as_u64().unwrap_or(0) as u16).collect()).unwrap_or_default() };
-            let c = MergeCase { a: g("a"), b: g("b"), ea: case["ea"].as_u64().unwrap_or(0) as u8, eb: case["eb"].as_u64().unwrap_or(0) as u8 };
+            let c = MergeCase { a: g("a"), b: g("b"), ea: case["ea"].as_u64().unwrap_or(0) as u8, eb: case["eb"].as_u64().unwrap_or(0) as u8, spare: (case["spare"][0].as_u64().unwrap_or(0) as usize, case["spare"][1].as_u64().unwrap_or(0) as usize) };
             let o = check_merge(ctx, &c);
             println!("replay merge {:?} outcome={}", c, o);
         }
